@@ -362,6 +362,8 @@ pub struct Known {
     pub status: String,
     pub text: String,
     pub reproducer: Option<String>,
+    /// further reproducers of the same root cause
+    pub reproducers: Vec<String>,
 }
 
 pub fn load_known() -> Vec<Known> {
@@ -376,6 +378,7 @@ pub fn load_known() -> Vec<Known> {
             status: e["status"].as_str().unwrap_or("").to_string(),
             text: e["text"].as_str().unwrap_or("").to_string(),
             reproducer: e["reproducer"].as_str().map(|s| s.to_string()),
+            reproducers: e["reproducers"].as_array().map(|a| a.iter().filter_map(|x| x.as_str().map(|s| s.to_string())).collect()).unwrap_or_default(),
         });
     }
     out
@@ -522,17 +525,21 @@ pub fn driver_main(def: &CheckDef, tier: Tier, seed: u64) -> i32 {
         }
     }
     for k in known.iter().filter(|k| k.status == "open") {
-        if let Some(r) = &k.reproducer {
+        let mut still_fails = false;
+        for r in k.reproducer.iter().chain(k.reproducers.iter()) {
             let p = Path::new(VERIF).join(r);
             replayed += 1;
             match replay_in_child(id, &p) {
                 Ok(None) => {} // repaired by someone: nothing to say
-                Ok(Some(_)) => known_lines.push(format!("KNOWN-FINDING: property={id} {}", k.text)),
+                Ok(Some(_)) => still_fails = true,
                 Err(e) => {
                     eprintln!("replay infrastructure failure: {e}");
                     return 2;
                 }
             }
+        }
+        if still_fails {
+            known_lines.push(format!("KNOWN-FINDING: property={id} {}", k.text));
         }
     }
 
